@@ -342,7 +342,7 @@ Definition m_apply (s : store) (w : kvd) : store :=
 Definition m_replay (ws : list kvd) (s : store) : store := fold_left m_apply ws s.
 
 (* memory/iterator.go *)
-Record miter := { mi_kvs : list (key * val); mi_cur : Z }.
+Record miter := { mi_kvs : list (key * val); mi_cur : Z; mi_pos : bool (* positioned *) }.
 
 Definition m_valid (it : miter) : bool :=
   (0 <=? mi_cur it)%Z && (mi_cur it <? Z.of_nat (length (mi_kvs it)))%Z.
@@ -354,23 +354,28 @@ Definition mem_visible (prefix : key) (ub : bool) (k : key) : bool :=
   (match (if ub then upper_bound prefix else None) with Some u => klt k u | None => true end).
 
 Definition mem_iter (s : store) (prefix : key) (ub : bool) : miter :=
-  {| mi_kvs := filter (fun kv => mem_visible prefix ub (fst kv)) s; mi_cur := (-1)%Z |}.
+  {| mi_kvs := filter (fun kv => mem_visible prefix ub (fst kv)) s; mi_cur := (-1)%Z; mi_pos := false |}.
 
-Definition m_set (it : miter) (c : Z) : miter := {| mi_kvs := mi_kvs it; mi_cur := c |}.
+Definition m_set (it : miter) (c : Z) : miter := {| mi_kvs := mi_kvs it; mi_cur := c; mi_pos := mi_pos it |}.
+Definition m_first (it : miter) : miter := {| mi_kvs := mi_kvs it; mi_cur := 0%Z; mi_pos := true |}.
 
-(* returns the new iterator and the bool the Go method returns *)
+(* returns the new iterator and the bool the Go method returns
+   (after "fix: db/memory iterator positioning follows Pebble") *)
 Definition mem_move (it : miter) (m : imove) : miter * bool :=
   match m with
-  | MFirst => let it' := m_set it 0%Z in (it', m_valid it')
+  | MFirst => let it' := m_first it in (it', m_valid it')
   | MPrev =>
-      if (mi_cur it =? 0)%Z then (m_set it (-1)%Z, false)
-      else if (mi_cur it =? -1)%Z then let it' := m_set it 0%Z in (it', m_valid it')
+      if negb (mi_pos it) then let it' := m_first it in (it', m_valid it')
+      else if (mi_cur it <=? 0)%Z then (m_set it (-1)%Z, false)
       else (m_set it (mi_cur it - 1)%Z, true)
-  | MNext => let it' := m_set it (mi_cur it + 1)%Z in (it', m_valid it')
+  | MNext =>
+      if negb (mi_pos it) then let it' := m_first it in (it', m_valid it')
+      else let it' := (if (mi_cur it <? Z.of_nat (length (mi_kvs it)))%Z then m_set it (mi_cur it + 1)%Z else it) in
+           (it', m_valid it')
   | MSeek k =>
       match seek_idx (mi_kvs it) k 0 with
-      | Some j => (m_set it (Z.of_nat j), true)
-      | None => (m_set it (Z.of_nat (length (mi_kvs it))), false)
+      | Some j => ({| mi_kvs := mi_kvs it; mi_cur := Z.of_nat j; mi_pos := true |}, true)
+      | None => ({| mi_kvs := mi_kvs it; mi_cur := Z.of_nat (length (mi_kvs it)); mi_pos := true |}, false)
       end
   end.
 
@@ -533,8 +538,6 @@ Fixpoint run_mem (st : mstate) (ops : list op) : list out :=
 (* Operation sequences on which db/memory is proved to coincide with the contract. Each clause
    that fails names one of the divergence shapes that the differential reports as a finding. *)
 Inductive shape :=
-| ShPrevAtBefore    (* Prev after the iterator already moved before the first entry *)
-| ShNextAtAfter     (* Next after the iterator already moved past the last entry *)
 | ShBatchRange      (* DeleteRange recorded in a batch (memory expands it eagerly) *)
 | ShNonIndexedRead  (* read through a batch that was not created as an indexed batch *)
 | ShBadHandle.      (* use of a closed or unknown handle *)
@@ -567,12 +570,7 @@ Definition strict_step (st : sstate) (o : op) : option shape :=
   | IMove h m =>
       match lookup (s_iters st) h with
       | None => Some ShBadHandle
-      | Some it =>
-          match m, si_cur it with
-          | MPrev, Before => Some ShPrevAtBefore
-          | MNext, After => Some ShNextAtAfter
-          | _, _ => None
-          end
+      | Some _ => None
       end
   | IClose h => match lookup (s_iters st) h with None => Some ShBadHandle | Some _ => None end
   | Helper _ ws _ _ => if existsb wop_is_range ws then Some ShBatchRange else None
